@@ -208,8 +208,15 @@ def World.valid (w : World) (i : Ingress) : Bool :=
 def ingLE (a b : Ingress) : Bool :=
   a.created < b.created || (a.created == b.created && !(decide (b.key < a.key)))
 
+def insertIng (a : Ingress) : List Ingress → List Ingress
+  | [] => [a]
+  | b :: l => if ingLE a b then a :: b :: l else b :: insertIng a l
+
+/-- `sortIngress` (insertion sort: the order is total on distinct keys, so any sort gives this list) -/
+def sortIngs (l : List Ingress) : List Ingress := l.foldr insertIng []
+
 /-- `GetIngressList` + `sortIngress` -/
-def World.validSorted (w : World) : List Ingress := (w.ings.filter w.valid).mergeSort ingLE
+def World.validSorted (w : World) : List Ingress := sortIngs (w.ings.filter w.valid)
 
 /-! ## typed tracker nodes -/
 
